@@ -48,3 +48,74 @@ Proof.
   unfold d4. rewrite firstn_le_app.
   rewrite unle_le_small; [exact Hl|]. rewrite Hl. exact Hfit.
 Qed.
+
+(* ------------------------------------------------------------------------------------------------
+   tables whose additions are self-describing entries (C03) *)
+From ACPI Require Import Proofs.WalkP.
+
+Record walktable := {
+  wt_table : addtable;
+  wt_ehdr : ehdr;
+  wt_self : forall s o e, at_entry wt_table s o = Some e -> exists ty, self_describing wt_ehdr (a_bytes e) ty;
+  wt_new_empty : forall c s0, at_new wt_table c = Some s0 -> t_ents s0 = []
+}.
+
+Definition madt_walk : walktable :=
+  {| wt_table := madt_table; wt_ehdr := H_u8_u8; wt_self := madt_addition_self; wt_new_empty := madt_new_empty |}.
+
+Definition walk_tables : list walktable := [madt_walk].
+
+Lemma forall_self_tys h (es : list (list N)) :
+  Forall (fun e => exists ty, self_describing h e ty) es -> exists tys, Forall2 (self_describing h) es tys.
+Proof.
+  induction es as [|e es IH]; intros H; [exists []; constructor|].
+  inversion H as [|? ? [ty Hty] Hr]; subst. destruct (IH Hr) as [tys Htys]. exists (ty :: tys). now constructor.
+Qed.
+
+(* the walk over the emitted image, from the first-entry offset, finds exactly the entries that were added *)
+Lemma walktable_tiles (W : walktable) md c ops s0 s :
+  at_new (wt_table W) c = Some s0 -> run_adds (at_entry (wt_table W)) md s0 ops = Some s ->
+  N.of_nat (length (tbl_image s)) < 2 ^ 32 ->
+  let first := (36 + length (mid (t_kind s) (t_pre s) 0))%nat in
+  exists tys,
+    Forall2 (self_describing (wt_ehdr W)) (t_ents s) tys /\
+    walk (length (t_ents s)) (wt_ehdr W) first (skipn first (tbl_image s)) = Some (walk_result first (t_ents s) tys) /\
+    concat (t_ents s) = skipn first (tbl_image s) /\
+    t_cnt s = N.of_nat (length (t_ents s)).
+Proof.
+  intros Hn Hr Hfit first.
+  pose proof (at_new_inv (wt_table W) c s0 Hn) as I0.
+  pose proof (addtable_reach (wt_table W) md c ops s0 s Hn Hr Hfit) as I.
+  assert (HF : Forall (fun e => exists ty, self_describing (wt_ehdr W) e ty) (t_ents s)).
+  { apply (run_adds_forall (at_kind (wt_table W)) (at_entry (wt_table W)) (at_sound (wt_table W)) _ md ops s0 s); auto.
+    - intros s1 o e He. exact (wt_self W s1 o e He).
+    - rewrite (wt_new_empty W c s0 Hn). constructor. }
+  destruct (forall_self_tys _ _ HF) as [tys Htys].
+  destruct I as (I & _).
+  destruct (image_split s (inv_hdr s I)) as (pre & Hs & Hl).
+  exists tys. split; [exact Htys|].
+  assert (Hsk : skipn first (tbl_image s) = t_body s).
+  { rewrite Hs. unfold first. rewrite <- Hl. apply skipn_app_exact. }
+  rewrite Hsk. split; [|split; [reflexivity|exact (inv_cnt s I)]].
+  apply walk_concat; [exact Htys|lia].
+Qed.
+
+(* C05, from the constructor: handles are offsets in every later image *)
+Lemma handle_offset_from_ctor (T : addtable) md c pre s0 s o s1 evs ops s' :
+    at_new T c = Some s0 -> run_adds (at_entry T) md s0 pre = Some s ->
+    add_step (at_entry T) md s o = Some (s1, evs) -> run_adds (at_entry T) md s1 ops = Some s' ->
+    N.of_nat (length (tbl_image s')) < 2 ^ 32 ->
+    exists e tail, at_entry T s o = Some e /\
+      evs = [EvNum (if a_returns e then N.of_nat (length (tbl_image s)) else 0)] /\
+      skipn (length (tbl_image s)) (tbl_image s') = a_bytes e ++ concat tail /\
+      skipn (length (tbl_image s)) (tbl_image s1) = a_bytes e.
+Proof.
+  intros Hn Hpre Hstep Hrun Hfit.
+  assert (I0 : Inv2 (at_kind T) s0) by (eapply at_new_inv; eauto).
+  pose proof (inv_hdr s0 (proj1 I0)) as Hh0.
+  pose proof (run_adds_hdr_ok (at_kind T) (at_entry T) (at_sound T) md pre s0 s Hh0 Hpre) as Hh.
+  destruct (add_step_grows (at_kind T) (at_entry T) (at_sound T) md s o s1 evs Hh Hstep) as [Hh1 Hg1].
+  pose proof (run_adds_grows (at_kind T) (at_entry T) (at_sound T) md ops s1 s' Hh1 Hrun) as Hg2.
+  assert (I : Inv2 (at_kind T) s) by (eapply addtable_reach; eauto; lia).
+  exact (handle_is_offset (at_kind T) (at_entry T) (at_sound T) md s o s1 evs ops s' I Hstep Hrun Hfit).
+Qed.
